@@ -3,6 +3,10 @@
 // Contracts for the verif build tag: comment-only, read by /verif/engine (govc).
 package cache
 
+// Hook: SegmentUInt64Map.Clear has no caller, so the generic is never instantiated and cannot be put under
+// contract. This brings the same instance the tables are proved over into the program.
+var _ = (*SegmentUInt64Map[any]).Clear
+
 //@ # The key hashers write only into a pooled scratch buffer (sync.Pool): no DNS message, cache entry or
 //@ # table is modified. Their VALUE is deliberately left unspecified: every property proved over the
 //@ # tables holds for any hash function (collisions included).
@@ -217,3 +221,13 @@ package cache
 //@   loop 1 invariant 0 <= off && off <= len(wireName) && 0 <= si && presName(wireName, off, name, si, wroteLabel) == presName(wireName, 0, name, 0, false)
 //@   loop 2 invariant 0 <= si && 0 < c && c < 64 && 0 <= rangeidx && rangeidx <= c && off + c <= len(wireName) && 0 < off && off <= 256 && presName(wireName, 0, name, 0, false) == (presLabel(wireName, off + rangeidx, off + c, name, si) >= 0 && pm(name, presLabel(wireName, off + rangeidx, off + c, name, si), 46) && presName(wireName, off + c, name, presLabel(wireName, off + rangeidx, off + c, name, si) + 1, true))
 //@   ensures result == (len(wireName) != 0 && len(wireName) <= 255 && presName(wireName, 0, name, 0, false))
+
+//@ # ---- C16: Clear takes off the shared count exactly what each segment held, under that segment's lock, and never
+//@ # OVERWRITES the count: a key stored meanwhile in a segment already swept stays counted
+//@ func (*SegmentUInt64Map[any]).Clear
+//@   abstract
+//@   nosafety all pre
+//@   loop 1 invariant calls("(*sync/atomic.Int64).Store") == 0 && calls("(*sync.RWMutex).Lock") == calls("(*sync.RWMutex).Unlock")
+//@   assert at call (*internal/cache.UInt64Map[any]).Clear#1: calls("(*sync.RWMutex).Lock") == calls("(*sync.RWMutex).Unlock") + 1
+//@   assert at call (*sync/atomic.Int64).Add#1: arg1 == -int64(lastret("(*internal/cache.UInt64Map[any]).Len"))
+//@   assert at return: calls("(*sync/atomic.Int64).Store") == 0
